@@ -37,4 +37,23 @@ func collectC15() {
 	cI("FrameReadTimeoutSec", int64(p2p.VerifFrameReadTimeout/time.Second))
 	cI("FrameWriteTimeoutSec", int64(p2p.VerifFrameWriteTimeout/time.Second))
 	cI("PingIntervalSec", int64(p2p.VerifPingInterval/time.Second))
+	// base (devp2p) protocol of a connection: code space, handshake limits, disconnect reasons
+	cU("BaseProtocolLength", p2p.VerifBaseProtocolLength)
+	cU("BaseProtocolMaxMsgSize", p2p.VerifBaseProtocolMaxMsgSize)
+	cU("BaseProtocolVersion", p2p.VerifBaseProtocolVersion)
+	cU("EthProtocolLength", protocol.ProtocolLengths[0])
+	cU("HandshakeMsg", p2p.VerifHandshakeMsg)
+	cU("DiscMsg", p2p.VerifDiscMsg)
+	cU("PingMsg", p2p.VerifPingMsg)
+	cU("PongMsg", p2p.VerifPongMsg)
+	cU("DiscRequested", uint64(p2p.DiscRequested))
+	cU("DiscNetworkError", uint64(p2p.DiscNetworkError))
+	cU("DiscProtocolError", uint64(p2p.DiscProtocolError))
+	cU("DiscUselessPeer", uint64(p2p.DiscUselessPeer))
+	cU("DiscTooManyPeers", uint64(p2p.DiscTooManyPeers))
+	cU("DiscAlreadyConnected", uint64(p2p.DiscAlreadyConnected))
+	cU("DiscIncompatibleVersion", uint64(p2p.DiscIncompatibleVersion))
+	cU("DiscInvalidIdentity", uint64(p2p.DiscInvalidIdentity))
+	cU("DiscUnexpectedIdentity", uint64(p2p.DiscUnexpectedIdentity))
+	cU("DiscSubprotocolError", uint64(p2p.DiscSubprotocolError))
 }
